@@ -7,7 +7,7 @@ ROOT = os.path.dirname(os.path.dirname(os.path.abspath(__file__)))
 CHECKS = {
     "C01": {
         "technique": "TLA+ spec (Grammar.tla, Lexer.tla) model checked with TLC; TLC-enumerated token/character strings replayed into Scanner/Parser/model_description; recorded parses of generated sentences judged by TLC (Grammar_Trace)",
-        "text": "Bounded-exhaustive: TLC proves on every token string (<=4 over 22 kinds quick; <=4 over 27, <=5 over 16, <=6 over 10 kinds thorough) and every character-class string (<=4 / <=5 over 16 classes) that the stratified grammar is unambiguous, that its two definitions agree and that the transcription of parser.py/scanner.py refines it; every one of those strings is then run through the real Scanner, Parser and model_description and compared with the Abs verdict (in the language? which tree? all tokens consumed?). Beyond the bound, generated sentences up to depth 9 and single-token mutations are parsed by the real code and each recorded parse is judged by TLC.",
+        "text": "Bounded-exhaustive: TLC proves on every token string (<=4 over 22 kinds quick; <=4 over 27, <=5 over 16, <=6 over 10 kinds thorough) and every character-class string (<=4 / <=5 over 16 classes) that the stratified grammar is unambiguous, that its two definitions agree and that the transcription of parser.py/scanner.py refines it; every one of those strings is then run through the real Scanner, Parser and model_description and compared with the Abs verdict (in the language? which tree? all tokens consumed?). Beyond the bound, generated sentences up to depth 9 and single-token mutations are parsed by the real code and each recorded parse is judged by TLC (valid tree, yield = all tokens, = generating tree); for every fifth sentence all calls of the Parser methods are recorded with sys.setprofile and checked step by step against the spec operator of that method; long random character strings are scanned by the real code and judged by Lexer_Trace.",
         "ref": "DESIGN.md §3.1, §3.2, §4 C01",
         "note": "Trusted: TLC, the AST projection fv/syntax.py:project, the renderer (lexeme pool is ASCII). Acceptance of a sentence is never demanded (the statement allows rejection); non-ASCII identifiers are not covered.",
     },
@@ -85,9 +85,9 @@ CHECKS = {
     },
     "C11": {
         "technique": "TLA+ spec (Scopes.tla: ordered scope chain, one action per probe) model checked with TLC over the complete configuration space; every terminal state replayed into design_matrices through synthetic caller modules with sentinels",
-        "text": "Complete enumeration: all 1536 configurations (which of data / built-ins / caller locals / caller globals / extra_namespace define the name; decoy definitions in the locals and globals of frames that env does not select; role argument or callee; plain, back-quoted or dotted name; env 0..3). TLC checks FirstMatchWins, DecoysIrrelevant and NoShadowing on the probe-by-probe machine and exports the winner of each configuration; the harness builds four nested callers in four synthetic modules, plants distinguishable sentinels and observes which object reaches a recording function (argument role) or gets called (callee role, dotted via attribute access); an undefined name must raise.",
+        "text": "Complete enumeration: all 1536 configurations (which of data / built-ins / caller locals / caller globals / extra_namespace define the name; decoy definitions in the locals and globals of frames that env does not select; role argument or callee; plain, back-quoted or dotted name; env 0..3). TLC checks FirstMatchWins, DecoysIrrelevant and NoShadowing on the probe-by-probe machine and exports the winner of each configuration; the harness builds four nested callers in four synthetic modules, plants distinguishable sentinels and observes which object reaches a recording function (argument role) or gets called (callee role, dotted via attribute access); an undefined name must raise. The built-in scope is probed with a name of each registry (transforms and encodings: 2304 replays), and a logging extra_namespace records whether the last scope was asked: Scopes_Trace checks that it is probed iff no earlier scope defines the name (path conformance).",
         "ref": "DESIGN.md §3.9, §4 C11",
-        "note": "Trusted: the sentinel harness fv/drivers/c11.py. The built-in scope is probed with the name 'scale'.",
+        "note": "Trusted: the sentinel harness fv/drivers/c11.py (a back-quoted name that is not an identifier cannot be a Python local: that scope is treated as not defining it).",
     },
     "C12": {
         "technique": "TLA+ spec (PyExpr.tla: Python's expression grammar = Abs; Grammar.tla's transcription of the formula parser = Impl) model checked with TLC (difference theorem) over every short argument token string; each Python expression replayed through formulae and through CPython's eval with recording operands; recorded evaluations of random expressions judged by TLC (PyExpr_Trace); spec tree cross-checked with the ast module",
@@ -97,7 +97,7 @@ CHECKS = {
     },
     "C14": {
         "technique": "TLA+ spec in exact rational arithmetic (Transforms.tla: contracts = Abs; percentile knots, Cox-de Boor recursion, three-term recurrence and the branch table of BSpline._initialize = Impl) model checked with TLC on all small integer inputs; exact values replayed into formulae.transforms at 1e-9; TLC as exact oracle for harness-chosen longer inputs",
-        "text": "TLC proves in exact rationals, for every integer vector of length 3..4 over 0..3 and degree 1..3, that center has mean zero, scale has unit population variance, the poly recurrence gives mutually orthogonal columns orthogonal to the constant; for every non-constant vector of length 4 (quick) / 4..5 (thorough) x 0..2 inner knots x degree 1..3 x intercept that the B-spline basis on percentile knots has the documented number of columns, is non-negative and sums to one (also on later data with remembered knots); and that the branch table of BSpline._initialize equals the documented refusal rules on all 5600 parameter classes. Every case is replayed into the real Center/Scale/Polynomial/BSpline objects (training call, then later data on the same instance; raw=True = powers; explicit knots = df) and compared with the exact values. Longer vectors with ties are decided with the spec as oracle.",
+        "text": "TLC proves in exact rationals, for every integer vector of length 3..4 over 0..3 and degree 1..3, that center has mean zero, scale has unit population variance, the poly recurrence gives mutually orthogonal columns orthogonal to the constant; for every non-constant vector of length 4 over 0..2 (quick) / 4..5 over 0..4 (thorough) x 0..2 inner knots x degree 0..3 x intercept x explicit boundary knots 0 or 1 beyond the data on either side that the B-spline basis on percentile knots has the documented number of columns, is non-negative and sums to one (also on later data with remembered knots); and that the branch table of BSpline._initialize equals the documented refusal rules on all 5600 parameter classes. Every case is replayed into the real Center/Scale/Polynomial/BSpline objects (training call, then later data on the same instance; raw=True = powers; explicit knots = df) and compared with the exact values. Longer vectors with ties are decided with the spec as oracle.",
         "ref": "DESIGN.md §3.10, §4 C14, §8",
         "note": "NOT decided by this technique: accuracy under large offsets / ill-conditioning, degree > 3, long vectors (TLC has 32-bit integers and no floats). Irrational outputs (scale, orthonormal poly) are compared through their squares and signs. Open finding KF_C14_knot_at_upper_bound.",
     },
